@@ -37,6 +37,31 @@ pub fn crc32(bytes: &[u8]) -> u32 {
     c ^ 0xFFFF_FFFF
 }
 
+/// Four bytes which, appended to `prefix`, make the CRC-32 of the whole equal `target` (the table-driven CRC run
+/// backwards). Used to build records whose checksum is a chosen value, e.g. 0.
+pub fn crc32_forge_suffix(prefix: &[u8], target: u32) -> [u8; 4] {
+    let t = table();
+    // state after the prefix, and the state wanted after the four bytes
+    let mut s = 0xFFFF_FFFFu32;
+    for b in prefix {
+        s = t[((s ^ *b as u32) & 0xff) as usize] ^ (s >> 8);
+    }
+    let mut want = target ^ 0xFFFF_FFFF;
+    // table index used at each of the four steps, last step first (the top byte of a table entry identifies it)
+    let mut idx = [0usize; 4];
+    for i in (0..4).rev() {
+        let k = (0..256).find(|k| t[*k] >> 24 == want >> 24).unwrap_or(0);
+        idx[i] = k;
+        want = (want ^ t[k]) << 8;
+    }
+    let mut out = [0u8; 4];
+    for i in 0..4 {
+        out[i] = (s as u8) ^ idx[i] as u8;
+        s = t[idx[i]] ^ (s >> 8);
+    }
+    out
+}
+
 fn put_u64(o: &mut Vec<u8>, v: u64) {
     o.extend_from_slice(&v.to_be_bytes());
 }
